@@ -93,6 +93,8 @@ pub mod shims {
     }
     pub mod libc_shim {
         use super::super::*;
+        // anything not overridden below is the host's libc (a change to the library that calls another libc item still builds)
+        pub use libc::*;
         pub use std::ffi::c_void;
         pub type c_int = i32;
         pub type mach_vm_address_t = u64;
